@@ -102,7 +102,7 @@ func (c ListCase) Post124() bool {
 }
 
 var dirPool = []string{"", "", "", "zoo/", "a/", "a/b/", "a/b/c/", "vendor/", "vendor/x/", "vendor/x/y/", "pkg/vendor/", "pkg/vendor/z/", "pkg/vendor/z/w/", "vendor/vendor/", "sub/", "sub/deep/", "sub/vendor/", "A/", "a/B/", "Sub/", "é/", "ﬀ/", "ff/", "K/", "k/", "\u212a/", "\u212a/sub/", "\u017f/", "s/", "\u212b/", "\u00e5/", "a/\u212a/", "a/k/", "internal/", ".git/", "cmd/tool/", "testdata/", "con/", "a.b/", "..data/", "..2024_01_01/", "com1.conf.d/", "sub/..inner/"}
-var filePool = []string{"zed.go", "fizz.txt", "x.go", "y.go", "go.mod", "go.mod", "GO.MOD", "Go.Mod", "go.MOD", "LICENSE", "license", "License", "README.md", "modules.txt", "vendor.go", "vendor", ".hg_archival.txt", "aux.txt", "NUL", "com1.go", "a~1", "é.go", "É.go", "X.GO", "x.GO", "ß", "ss", "\u212a", "k", "K", "\u017f", "s", "\u212b", "\u00e5", "\u1e9e", "straße.go", "STRASSE.go", "σ.txt", "ς.txt", "Σ.txt", "a b.txt", "a\tb", "trailing.", ".hidden", "..", "...", "f|g", "f?g", "f*g", "weird[1].go", "go.mod.bak", "x", "z", ".git", ".hg", ".svn", ".bzr", ".gitignore", "cargo.mod", "algo.mod", "x.GO.MOD", "notgo.mod", "go.mod.go.mod", "LICENSE.txt", "MYLICENSE",
+var filePool = []string{"data\u0663.txt", "v\uff12.go", "zed.go", "fizz.txt", "x.go", "y.go", "go.mod", "go.mod", "GO.MOD", "Go.Mod", "go.MOD", "LICENSE", "license", "License", "README.md", "modules.txt", "vendor.go", "vendor", ".hg_archival.txt", "aux.txt", "NUL", "com1.go", "a~1", "é.go", "É.go", "X.GO", "x.GO", "ß", "ss", "\u212a", "k", "K", "\u017f", "s", "\u212b", "\u00e5", "\u1e9e", "straße.go", "STRASSE.go", "σ.txt", "ς.txt", "Σ.txt", "a b.txt", "a\tb", "trailing.", ".hidden", "..", "...", "f|g", "f?g", "f*g", "weird[1].go", "go.mod.bak", "x", "z", ".git", ".hg", ".svn", ".bzr", ".gitignore", "cargo.mod", "algo.mod", "x.GO.MOD", "notgo.mod", "go.mod.go.mod", "LICENSE.txt", "MYLICENSE",
 	// names that begin with dots without being dot or dot-dot; reserved device names with several suffixes
 	"..keep", "..data", "...x", ".a.b", "aux.tar.gz", "NUL.pb.go", "lpt9.a.b.c", "com9", "LPT9.txt"}
 
